@@ -305,6 +305,24 @@ mut("c11-retry-read-forever-on-shutdown", ["C11"], "conn.go",
     "\t\tselect {\n\t\tcase <-c.shutdownCtx.Done():\n\t\t\tc.logger.Debug(\"received shutdown cancellation\"", "\t\tselect {\n\t\tcase <-doneUnless(c.shutdownCtx, requestID > 3):\n\t\t\tc.logger.Debug(\"received shutdown cancellation\"",
     more=[("conn.go", "func (c *conn) readRequest(", "func doneUnless(ctx context.Context, b bool) <-chan struct{} {\n\tif b {\n\t\treturn nil\n\t}\n\treturn ctx.Done()\n}\n\nfunc (c *conn) readRequest(")])
 
+# ---- C15 -------------------------------------------------------------------
+mut("c15-initconn-lock-removed", ["C15"], "conn.go",
+    "\tc.mu.Lock()\n\tdefer c.mu.Unlock()\n\tc.netConn = netConn", "\tc.netConn = netConn")
+mut("c15-ready-lock-removed", ["C15"], "server.go",
+    "\ts.mu.RLock()\n\tdefer s.mu.RUnlock()\n\treturn s.listenerReady", "\treturn s.listenerReady")
+mut("c15-write-lock-removed", ["C15"], "response.go",
+    "\trw.writerMu.Lock()\n\tdefer rw.writerMu.Unlock()\n", "")
+mut("c15-setusers-lock-removed", ["C15"], "testdirectory/directory.go",
+    "\td.mu.Lock()\n\tdefer d.mu.Unlock()\n\td.users = users", "\td.users = users")
+mut("c15-handlebind-lock-removed", ["C15"], "testdirectory/directory.go",
+    "\t\t\t_ = w.Write(resp)\n\t\t}()\n\t\td.mu.RLock()\n\t\tdefer d.mu.RUnlock()\n", "\t\t\t_ = w.Write(resp)\n\t\t}()\n")
+mut("c15-stop-reads-listener-without-lock", ["C15"], "server.go",
+    "\tconst op = \"gldap.(Server).Stop\"\n\ts.mu.RLock()\n\tdefer s.mu.RUnlock()\n", "\tconst op = \"gldap.(Server).Stop\"\n")
+mut("c15-panic-log-formats-conn", ["C15"], "server.go",
+    "fmt.Sprintf(\"%s: %+v\", c.RemoteAddr(), r)", "fmt.Sprintf(\"%+v: %+v\", c, r)")
+mut("c15-getter-lock-removed", ["C15"], "testdirectory/directory.go",
+    "func (d *Directory) Groups() []*gldap.Entry {\n\td.mu.RLock()\n\tdefer d.mu.RUnlock()\n", "func (d *Directory) Groups() []*gldap.Entry {\n")
+
 # ---- C14 -------------------------------------------------------------------
 mut("c14-managedsait-criticality-dropped-on-decode", ["C14", "C01"], "control.go",
     "return NewControlManageDsaIT(WithCriticality(Criticality))", "return NewControlManageDsaIT()")
